@@ -63,8 +63,7 @@ Proof.
   apply remaining_base_ok in Hrb as [-> Hab]. apply accumulate_eq in Hacc.
   assert (Hdy : cq * 10 ^ d_scale p = d_mant p * eff).
   { destruct csz as [s|].
-    - subst eff. eapply mul_size_units; eauto.
-      destruct m; try discriminate Hm; injection Hm as Hi _ _ Hs; try discriminate Hs. subst size id0. cbn in Hclean. eapply Hclean; eauto.
+    - subst eff. eapply mul_size_units; eauto. eapply lot_exact_at; eauto.
     - subst eff. rewrite (full_exit_quote c id b p tq cq Hok Hp0 Hmul Hfr Hcq). exact HU. }
   assert (Hrbv : rb' = unfilled b - eff).
   { apply remaining_base_ok in Hrb' as [Hr _]. rewrite Hacc in Hr. unfold unfilled in *. cbn in Hr. lia. }
